@@ -176,6 +176,38 @@ impl VPackBe {
 }
 pub struct FileWriterHandle { pub be: VPackBe, pub cacheable: bool }
 
+// ---- the writer thread of the packer (Actor::new): the status it reports ----
+// the packs handed to the writer, each as the result of FileWriterHandle::process (unit file_writer_process), in order.
+// The lazy readahead pipeline in front of try_for_each is ABSTRACTED to this sequence (channels / threads: out of reach).
+pub uninterp spec fn PIPE_RESULTS() -> Seq<RusticResult<IndexPackR>>;
+// "this pack's entry was added to the indexer" -- a fact only FileWriterHandle::index can produce
+pub uninterp spec fn WRITER_INDEXED(id: PackId) -> bool;
+pub struct VPackRx { pub _opaque: u64 }
+pub struct VScope { pub _opaque: u64 }
+#[verifier::external_body]
+pub fn vwriter_pipeline(rx: VPackRx, fwh: &FileWriterHandle, scope: &VScope) -> (r: Vec<RusticResult<IndexPackR>>)
+    ensures r@ == PIPE_RESULTS(),
+{ unimplemented!() }
+impl FileWriterHandle {
+    // FileWriterHandle::index: indexer.add(index)
+    #[verifier::external_body]
+    pub fn index(&self, index: IndexPackR) -> (r: RusticResult<()>)
+        ensures r is Ok ==> WRITER_INDEXED(index.id),
+    { unimplemented!() }
+}
+pub open spec fn every_pack_written_and_indexed() -> bool {
+    forall|i: int| 0 <= i < PIPE_RESULTS().len() ==> (#[trigger] PIPE_RESULTS()[i]) is Ok && WRITER_INDEXED(PIPE_RESULTS()[i]->Ok_0.id)
+}
+pub struct VFinishTx { pub _opaque: u64 }
+impl VFinishTx {
+    // the status Actor::finalize (and so Packer::finalize and the command) returns.  PRECONDITION: success is reported
+    // only if every pack handed to the writer was stored and added to the index
+    #[verifier::external_body]
+    pub fn send(&self, status: RusticResult<()>) -> (r: Result<(), ()>)
+        requires status is Ok ==> every_pack_written_and_indexed(),
+    { unimplemented!() }
+}
+
 // the two branches that write the rebuilt index (and, when repacking, the new packs first): ELIDED in the unit
 #[verifier::external_body]
 pub fn vfinalize_new_index(w: &mut PruneWorld) -> (r: RusticResult<()>)
